@@ -34,6 +34,14 @@ type VerifEvent struct {
 // A sink may block (it is then a scheduler gate); it must not call into the library.
 var VerifSink func(VerifEvent)
 
+// VerifKeepConn, if set, selects the connections whose events are reported at all; the others
+// cost one call (big replay campaigns sample connections). Same rules as VerifSink.
+var VerifKeepConn func(conn int64) bool
+
+func vOff(conn int64) bool {
+	return VerifSink == nil || VerifKeepConn != nil && !VerifKeepConn(conn)
+}
+
 var verifConnCounter int64
 
 type verifState struct {
@@ -83,7 +91,7 @@ func vB(b bool) int64 {
 	return 0
 }
 
-func verifGID() int64 {
+func verifGIDSlow() int64 {
 	var buf [40]byte
 	n := runtime.Stack(buf[:], false)
 	// "goroutine 123 [running]:"
@@ -142,28 +150,28 @@ func (c *Conn) vInit() {
 }
 
 func (c *Conn) vEv(ev string, a, b, d, e int64) {
-	if VerifSink == nil {
+	if vOff(c.v.id) {
 		return
 	}
 	VerifSink(VerifEvent{Conn: c.v.id, G: verifGID(), Ev: ev, A: a, B: b, D: d, E: e})
 }
 
 func (c *Conn) vEvS(ev string, s string, a int64) {
-	if VerifSink == nil {
+	if vOff(c.v.id) {
 		return
 	}
 	VerifSink(VerifEvent{Conn: c.v.id, G: verifGID(), Ev: ev, S: s, A: a})
 }
 
 func (c *Conn) vErr(ev string, err error, a int64) {
-	if VerifSink == nil {
+	if vOff(c.v.id) {
 		return
 	}
 	VerifSink(VerifEvent{Conn: c.v.id, G: verifGID(), Ev: ev, A: a, B: VerifErrClass(err)})
 }
 
 func (c *Conn) vObj(ev, kind string, o interface{}) {
-	if VerifSink == nil {
+	if vOff(c.v.id) {
 		return
 	}
 	VerifSink(VerifEvent{Conn: c.v.id, G: verifGID(), Ev: ev, S: kind, A: vObjID(o)})
@@ -172,7 +180,7 @@ func (c *Conn) vObj(ev, kind string, o interface{}) {
 // vUse brackets a call into whatever the limit reader currently reads from. Only pooled
 // objects are reported; the connection's own frame reader (a func value) is not pooled.
 func (c *Conn) vUse(ev string, o interface{}) {
-	if VerifSink == nil {
+	if vOff(c.v.id) {
 		return
 	}
 	if _, ok := o.(util.ReaderFunc); ok {
@@ -182,7 +190,7 @@ func (c *Conn) vUse(ev string, o interface{}) {
 }
 
 func (c *Conn) vHdr(ev string, h header) {
-	if VerifSink == nil {
+	if vOff(c.v.id) {
 		return
 	}
 	flags := vB(h.fin) | vB(h.rsv1)<<1 | vB(h.rsv2)<<2 | vB(h.rsv3)<<3 | vB(h.masked)<<4
@@ -205,7 +213,7 @@ func (m *mu) vName() string {
 }
 
 func (m *mu) vEv(ev string, a int64) {
-	if VerifSink == nil {
+	if vOff(m.c.v.id) {
 		return
 	}
 	l := m.vName()
